@@ -52,3 +52,5 @@ def r_once_forgotten(ctx: Ctx, rule: str) -> None:
                     anchors.append(r)
             ok = dominated_by_completion(g, anchors, g.exit)
             rep.ob(rule, f"the normal exit of flush is reached only through the forgetting of {fld}", ok, func=f, construct=rem[0])
+    # "flush(return_exceptions=True) itself never raises": also not by iterating a registry that changes while it waits
+    CL.r_no_live_iteration(ctx, "R13.6", ("flush",))
